@@ -222,6 +222,20 @@ class Exec:
         p.prefix = list(p.decisions)
         return d
 
+    def implied(s, c):
+        """True / False if the path condition decides c, else None (two solver queries; cached per term)"""
+        key = c.get_id(); cache = getattr(s.cur, 'impl_cache', None)
+        if cache is None: cache = s.cur.impl_cache = {}
+        if key in cache and cache[key][0] == len(s.cur.cond): return cache[key][1]
+        r = None
+        for val in (True, False):
+            s.solver.push(); s.solver.add(*s.cur.cond); s.solver.add(z3.Not(c) if val else c)
+            s.stats['feas_queries'] += 1
+            u = s.solver.check(); s.solver.pop()
+            if u == z3.unsat: r = val; break
+        cache[key] = (len(s.cur.cond), r)
+        return r
+
     def tobool(s, c):
         if isinstance(c, int): return bool(c & 1)
         if z3.is_bool(c): return s.decide(c)
@@ -314,6 +328,7 @@ class Exec:
                         cb = z3.simplify(cb)
                         if z3.is_true(cb): env[I.dest] = a
                         elif z3.is_false(cb): env[I.dest] = b
+                        elif s.implied(cb) is not None: env[I.dest] = a if s.implied(cb) else b
                         elif is_sym(a) and is_sym(b) and a.sort() == b.sort(): env[I.dest] = z3.If(cb, a, b)
                         elif isinstance(a, int) and isinstance(b, int):
                             n = resolve(I.ty, s.m).n
@@ -612,7 +627,14 @@ def _memset(s, a, mem):
     for k in [k for k in do if k != '!zero' and d.off <= k < d.off + n]: del do[k]
     return d
 
+def _guard_acquire(s, a, mem):
+    g = a[0]; cells = mem.setdefault(g.obj, {})
+    v = cells.get(g.off, 0)
+    return 0 if (isinstance(v, int) and v & 0xff) else 1
+def _guard_release(s, a, mem):
+    g = a[0]; mem.setdefault(g.obj, {})[g.off] = 1; return None
 LIBM = {
+    '__cxa_guard_acquire': _guard_acquire, '__cxa_guard_release': _guard_release, '__cxa_guard_abort': lambda s, a, mem: None,
     'sqrt': _sqrt, 'llvm.sqrt.f64': _sqrt, 'cbrt': _cbrt, 'fabs': _fabs, 'llvm.fabs.f64': _fabs, 'hypot': _hypot,
     'copysign': _copysign, 'llvm.copysign.f64': _copysign, 'fmax': _fmax, 'fmin': _fmin, 'llvm.maxnum.f64': _fmax, 'llvm.minnum.f64': _fmin,
     'floor': _floor, 'llvm.floor.f64': _floor, 'ceil': _ceil, 'llvm.ceil.f64': _ceil, 'trunc': _trunc, 'llvm.trunc.f64': _trunc,
